@@ -101,7 +101,7 @@ func (st *TarState) flush() error {
 }
 
 //verif:replace (*archive/tar.Writer).Flush
-func TarFlush(tw *tar.Writer) error { return tarWriters[tw].flush() }
+func TarFlush(tw *tar.Writer) error { zz.Touch(tw); return tarWriters[tw].flush() }
 
 func sortedKeys(m map[string]string) []string {
 	ks := make([]string, 0, len(m))
@@ -114,6 +114,7 @@ func sortedKeys(m map[string]string) []string {
 
 //verif:replace (*archive/tar.Writer).WriteHeader
 func TarWriteHeader(tw *tar.Writer, h *tar.Header) error {
+	zz.Touch(tw)
 	st := tarWriters[tw]
 	if st.Closed {
 		return tar.ErrWriteAfterClose
@@ -182,6 +183,7 @@ func TarWriteHeader(tw *tar.Writer, h *tar.Header) error {
 
 //verif:replace (*archive/tar.Writer).Write
 func TarWrite(tw *tar.Writer, p []byte) (int, error) {
+	zz.Touch(tw)
 	st := tarWriters[tw]
 	if st.Closed {
 		return 0, tar.ErrWriteAfterClose
@@ -210,6 +212,7 @@ func TarWrite(tw *tar.Writer, p []byte) (int, error) {
 
 //verif:replace (*archive/tar.Writer).Close
 func TarClose(tw *tar.Writer) error {
+	zz.Touch(tw)
 	st := tarWriters[tw]
 	if st.Closed {
 		if st.err == tar.ErrWriteAfterClose {
